@@ -41,6 +41,8 @@ class Profile:
         self.min_rcpts = None        # lower bound of the recipient count of a message (None: 1, rarely 0)
         self.rcpt_doms = None        # recipient domains to draw from (None: local, remote, mixed case, virtual)
         self.report_burst = 1        # answer up to this many outstanding deliveries at one quiescent point
+        self.p_long_addr = 0.12      # probability per message of long addresses (records that straddle the daemon's 128-, 512- and
+                                     # 1024-byte buffers already with a few recipients); long sender with half of that
         self.__dict__.update(kw)
 
 
@@ -129,6 +131,15 @@ class History:
         doms = list(p.rcpt_doms) if p.rcpt_doms else \
             [b"local.test", b"remote.test", b"LOCAL.test"] + ([b"virt.test", b"Other.Test"] if self.vdoms else [])
         rc = [b"r%d.%d@%s" % (m, k, rng.choice(doms)) for k in range(n)]
+        if p.p_long_addr and rng.random() < p.p_long_addr:
+            for k in range(len(rc)):
+                if rng.random() < 0.6:
+                    L = rng.choice([60, 100, 110, 127, 128, 129, 250, 500, 900])
+                    loc, dom = rc[k].split(b"@")
+                    rc[k] = loc + b"-" + b"x" * max(0, L - len(rc[k]) - 1) + b"@" + dom
+            if kind in ("user", "user-remote") and rng.random() < 0.5:
+                loc, dom = sender.split(b"@")
+                sender = loc + b"-" + b"y" * rng.choice([100, 400, 480, 500, 520, 900]) + b"@" + dom
         if p.virtual and rc and rng.random() < 0.3:
             rc[0] = b"r%d\nx@%s" % (m, rng.choice(doms))         # a newline inside a recipient address
         if rc and rng.random() < p.dup_rcpt:
